@@ -185,7 +185,7 @@ def run(case, thr_cls):
         else:
             seqkey = 'independent'
         mech = {'family': 'bkg', 'attr': attr, 'thr': thr_cls, 'interp': interp,
-                'selective': bool(selective), 'seq': seqkey}
+                'selective': bool(selective), 'seq': seqkey, 'dtype': params['dtype']}
         O.compare(case, out_live, fresh_cache[attr], 'bkg_read_vs_fresh', mech,
                   devname='bkg:' + attr)
         case.note('bkg_reads')
